@@ -3,6 +3,7 @@
 //! (encoder) and as field locator for structure-aware corruption.
 pub mod decode;
 pub mod encode;
+pub mod golden;
 pub mod page;
 pub mod xml;
 
@@ -95,22 +96,71 @@ pub fn diff_file(got: &FileRead, want: &FileRead, compare_bounds: bool) -> Optio
     None
 }
 
+/// Digest of everything refcodec decodes from a file (XML text excluded).
+pub fn content_digest(f: &FileRead) -> u64 {
+    let mut g = f.clone();
+    g.xml.clear();
+    let mut d = crate::rng::Digest::new();
+    d.str(&format!("{g:?}"));
+    d.finish()
+}
+
+pub fn bundled_names() -> Vec<String> {
+    let mut names: Vec<String> = std::fs::read_dir("/repo/testdata")
+        .map(|d| d.flatten().filter_map(|e| e.file_name().into_string().ok()).filter(|n| n.ends_with(".e57") && n != "corrupt_crc.e57").collect())
+        .unwrap_or_default();
+    names.sort();
+    names
+}
+
+/// Known deviation of the crate, not judged: a date-time structure without isAtomicClockReferenced
+/// (optional in the standard, default 0) or with an empty dateTimeValue is dropped entirely.
+pub fn normalise_datetimes(dec: &mut FileRead, theirs: &FileRead) {
+    if theirs.creation.is_none() && dec.creation.as_ref().map(|d| !d.atomic).unwrap_or(false) {
+        dec.creation = None;
+    }
+    for (g, w) in dec.pcs.iter_mut().zip(theirs.pcs.iter()) {
+        if w.meta.acq_start.is_none() && g.meta.acq_start.as_ref().map(|d| !d.atomic).unwrap_or(false) {
+            g.meta.acq_start = None;
+        }
+        if w.meta.acq_end.is_none() && g.meta.acq_end.as_ref().map(|d| !d.atomic).unwrap_or(false) {
+            g.meta.acq_end = None;
+        }
+    }
+    for (g, w) in dec.images.iter_mut().zip(theirs.images.iter()) {
+        if w.meta.acquisition.is_none() && g.meta.acquisition.as_ref().map(|d| !d.atomic).unwrap_or(false) {
+            g.meta.acquisition = None;
+        }
+    }
+}
+
+/// What the crate's reader reports about a bundled file vs what refcodec decodes (C03 / golden).
+pub fn compare_bundled_with_crate(name: &str) -> Result<(), String> {
+    let image = std::fs::read(format!("/repo/testdata/{name}")).map_err(|e| format!("{name}: {e}"))?;
+    let (dec, _) = decode::analyse(&image);
+    let mut dec = dec.ok_or_else(|| format!("{name}: refcodec cannot decode"))?;
+    let ctx = new_ctx(vec![]);
+    let disk = SimDisk::new(&ctx, DEV_DISK3, image, &Chunk::Full);
+    let mut r = e57::E57Reader::new(disk).map_err(|e| format!("the crate cannot open {name}: {e}"))?;
+    let theirs = adapter::read_all(&mut r);
+    normalise_datetimes(&mut dec.file, &theirs);
+    match diff_file(&theirs, &dec.file, true) {
+        Some(d) => Err(format!("{name}: crate vs independent decoder: {d}")),
+        None => Ok(()),
+    }
+}
+
 /// Calibration against a third implementation: every bundled foreign file with valid checksums
-/// must pass every fsck rule and decode to what the crate's reader returns.
+/// must pass every fsck rule, and must decode to the content recorded in `golden` (recorded when
+/// refcodec and the crate's reader agreed on every file). Independent of the crate under test:
+/// a crate that misreads a bundled file is a C03 violation, not a calibration failure.
 pub fn calibrate(verbose: bool) -> Result<usize, String> {
     page::self_check()?;
     xml::self_check()?;
-    let dir = std::path::Path::new("/repo/testdata");
-    let mut names: Vec<String> = std::fs::read_dir(dir)
-        .map_err(|e| format!("cannot list /repo/testdata: {e}"))?
-        .flatten()
-        .filter_map(|e| e.file_name().into_string().ok())
-        .filter(|n| n.ends_with(".e57") && n != "corrupt_crc.e57")
-        .collect();
-    names.sort();
+    let names = bundled_names();
     let mut n = 0;
     for name in &names {
-        let image = std::fs::read(dir.join(name)).map_err(|e| format!("{name}: {e}"))?;
+        let image = std::fs::read(format!("/repo/testdata/{name}")).map_err(|e| format!("{name}: {e}"))?;
         let (dec, problems) = decode::analyse(&image);
         if verbose {
             println!("{name}: {} bytes, {} problems", image.len(), problems.len());
@@ -119,50 +169,45 @@ pub fn calibrate(verbose: bool) -> Result<usize, String> {
             }
         }
         let dec = dec.ok_or_else(|| format!("calibration: {name} not decodable: {problems:?}"))?;
-        // every bundled file except corrupt_crc.e57 is a valid file
-        let expect_clean = true;
-        if expect_clean && !problems.is_empty() {
+        if !problems.is_empty() {
             return Err(format!("calibration: fsck rule broken by bundled file {name}: {}", problems[0]));
         }
-        let ctx = new_ctx(vec![]);
-        let disk = SimDisk::new(&ctx, DEV_DISK3, image.clone(), &Chunk::Full);
-        let mut r = e57::E57Reader::new(disk).map_err(|e| format!("calibration: crate cannot open {name}: {e}"))?;
-        let theirs = adapter::read_all(&mut r);
-        let mut dec = dec;
-        // Known deviation of the crate, not judged by calibration: a date-time structure without
-        // isAtomicClockReferenced (optional in the standard, default 0) is dropped entirely.
-        if theirs.creation.is_none() && dec.file.creation.as_ref().map(|d| !d.atomic).unwrap_or(false) {
-            dec.file.creation = None;
+        let d = content_digest(&dec.file);
+        if verbose {
+            println!("   (\"{name}\", 0x{d:016x}),");
         }
-        for (g, w) in dec.file.pcs.iter_mut().zip(theirs.pcs.iter()) {
-            if w.meta.acq_start.is_none() && g.meta.acq_start.as_ref().map(|d| !d.atomic).unwrap_or(false) {
-                g.meta.acq_start = None;
-            }
-            if w.meta.acq_end.is_none() && g.meta.acq_end.as_ref().map(|d| !d.atomic).unwrap_or(false) {
-                g.meta.acq_end = None;
-            }
-        }
-        for (g, w) in dec.file.images.iter_mut().zip(theirs.images.iter()) {
-            if w.meta.acquisition.is_none() && g.meta.acquisition.as_ref().map(|d| !d.atomic).unwrap_or(false) {
-                g.meta.acquisition = None;
-            }
-        }
-        if expect_clean {
-            if let Some(d) = diff_file(&dec.file, &theirs, true) {
-                if verbose {
-                    println!("   DIFF {d}");
-                }
-                // differences that are known, documented deviations of the crate are tolerated by name
-                if !calibration_tolerated(name, &d) {
-                    return Err(format!("calibration: refcodec and the crate disagree on {name}: {d}"));
-                }
-            }
+        match golden::GOLDEN.iter().find(|(g, _)| g == name) {
+            Some((_, want)) if *want == d => {}
+            Some((_, want)) => return Err(format!("calibration: refcodec decodes {name} to digest {d:016x}, golden is {want:016x}")),
+            None => return Err(format!("calibration: no golden digest for bundled file {name}")),
         }
         n += 1;
+    }
+    if n != golden::GOLDEN.len() {
+        return Err(format!("calibration: {n} bundled files found, {} golden digests", golden::GOLDEN.len()));
     }
     Ok(n)
 }
 
+/// Print the golden table (used once, after checking every file against the crate's reader).
+pub fn print_golden() -> Result<(), String> {
+    let names = bundled_names();
+    println!("pub const GOLDEN: [(&str, u64); {}] = [", names.len());
+    for name in &names {
+        compare_bundled_with_crate(name)?;
+        let image = std::fs::read(format!("/repo/testdata/{name}")).map_err(|e| e.to_string())?;
+        let (dec, problems) = decode::analyse(&image);
+        if !problems.is_empty() {
+            return Err(format!("{name}: {problems:?}"));
+        }
+        let dec = dec.ok_or("undecodable")?;
+        println!("    (\"{name}\", 0x{:016x}),", content_digest(&dec.file));
+    }
+    println!("];");
+    Ok(())
+}
+
+#[allow(dead_code)]
 fn calibration_tolerated(_name: &str, _diff: &str) -> bool {
     false
 }
